@@ -191,6 +191,24 @@ class ContractMixin:
     # ---------------------------------------------------------------- misc helpers used by the models
     _join = None
 
+    def all_heap_keys(self):
+        """every heap component the schema can give rise to (attributes of all classes, list / dict / set families)"""
+        if getattr(self, "_all_keys", None) is None:
+            keys = []
+            for cname, attrs in self.schema.items():
+                for attr, kind in attrs.items():
+                    keys.append(("attr", cname, attr, kind))
+            fams = ("int", "str", "any", "ref")
+            for f in fams:
+                keys += [("len", f), ("elems", f)]
+            keys.append(("joined",))
+            for kf in ("str", "int"):
+                keys += [("dhas", kf), ("dn", kf), ("dkeys", kf), ("dpos", kf), ("shas", kf), ("sn", kf)]
+                for vf in fams:
+                    keys.append(("dval", kf, vf))
+            self._all_keys = keys
+        return self._all_keys
+
     def join_term(self, sep_t, elems_t, n_t):
         if ContractMixin._join is None:
             f = z3.RecFunction("py_join", StrS, z3.ArraySort(IntS, StrS), IntS, StrS)
@@ -543,6 +561,8 @@ class ContractMixin:
             if m == "*":
                 whole.add("*")
                 continue
+            if m.startswith("*above:"):
+                continue        # handled by apply_contract (bounded havoc)
             if m.startswith("@"):       # location: '@self._blocks' (attribute of an object) or '@list(self._blocks)'
                 expr = m[1:]
                 node = self.parse_spec(expr)
@@ -610,6 +630,13 @@ class ContractMixin:
             # 2. havoc the footprint
             s.old = (pre_heap, dict(env), pre_alloc)
             whole, locs = self.parse_footprint(c, s, fr_c)
+            above = [m for m in c.modifies if isinstance(m, str) and m.startswith("*above:")]
+            if above:
+                # "*above:NAME": anything in objects allocated at or after the ghost mark NAME (an allocation pointer recorded
+                # by the caller's ghost code), nothing below it
+                base = s.heap.get(("g", above[0].split(":", 1)[1], "int"))
+                for f_ in s.heap.havoc_above(base, self.all_heap_keys()):
+                    s.assume(f_)
             if "*" in whole:
                 keep = {kx for kx in s.heap.comps if kx[0] == "g"}     # ghost state changes only when listed explicitly
                 s.heap.havoc_all(keep)
